@@ -233,11 +233,15 @@ def c06(F, R, tier):
 
 
 @prop("C16",
-      technique="static: symbolic evaluation of the extracted builder translation and operator impls on operand samples of every type combination; call-graph must-pass-through over MIR; handle resolution data-flow",
-      explanation="PARTIAL. Decides (H-TOEXP) to_exp maps every Expr variant (13, with all 9 BinOps and 2 UnOps) to the same-named Exp form with operands in place and indexes resolved through the name table; (H-OPS) each of the 76 expanded std::ops impls for Expr/Var/f64/i32/bool builds the same-named operator with self on the left and rhs on the right (evaluated from their HIR), plus implies/iff; (S-EVAL) eval_expr agrees with the language's operator semantics on all operator x {0,1,2,-1}^2 constant cells, truthy/bool_num tables; (FUNNEL) only Linearizer::linearize assembles a LinearModel, the builder (linearize, solve_with), the one-shot solver and the pipes reach it, text entries reach parse_problem_source / transform_parsed_problem, pest is entered only from the pre-model parser; (D-HANDLE) handle -> variable_names[index] -> value_of(name), first duplicate wins, the solution carries the builder's name table, into_model marks every declared variable used and defaults to satisfy. NOT decided: equality of the compiled models and answers across front doors; the builder macros (constraint!, vars!) are not expanded in the rooc crate and are not checked here.")
+      technique="static: symbolic evaluation of the extracted builder translation and operator impls on operand samples of every type combination; call-graph must-pass-through over MIR; handle resolution data-flow; token-tree tables of the macro_rules! definitions; bounded symbolic evaluation of builder call sequences against the emulated text front end",
+      explanation="PARTIAL. Decides (H-TOEXP) to_exp maps every Expr variant (13, with all 9 BinOps and 2 UnOps) to the same-named Exp form with operands in place and indexes resolved through the name table; (H-OPS) each of the 76 expanded std::ops impls for Expr/Var/f64/i32/bool builds the same-named operator with self on the left and rhs on the right (evaluated from their HIR), plus implies/iff; (S-EVAL) eval_expr agrees with the language's operator semantics on all operator x {0,1,2,-1}^2 constant cells, truthy/bool_num tables; (FUNNEL) only Linearizer::linearize assembles a LinearModel, the builder (linearize, solve_with), the one-shot solver and the pipes reach it, text entries reach parse_problem_source / transform_parsed_problem, pest is entered only from the pre-model parser; (D-HANDLE) handle -> variable_names[index] -> value_of(name), first duplicate wins, the solution carries the builder's name table, into_model marks every declared variable used and defaults to satisfy. (M-TABLE) the builder's macro_rules! definitions, read as token trees: in munch_constraint each comparison token builds BuilderConstraint::new(expr!(left), Comparison::<its variant>, expr!(right), ..), `->`, `<->` and the base arm assert the whole formula, dispatch arms precede the munching arm; munch_expr maps `->`/`<->` to Implies/Iff with operands in place; constraint! sets the name from stringify!(name); every vars! arm (6 scalar, 6 array forms) declares stringify!(name) through add_var / add_vars(.., count, ..) with the VariableType constructor of its keyword and ($min, $max) in order, binds the handle and continues. (FRONT-DOOR-EQUIV) ~115 models (32 numeric forms on either side of each comparison, 19 logic forms as assertions and as values, objectives, strict comparisons, satisfy / no objective, unbounded domains, a mixed model) are written once as source text and once as the builder calls a user would write -- the operator impl chosen by the Rust operand types (Var, Expr, f64, i32, bool), abs / min / max / sum / all / any, implies / iff, BuilderConstraint::new / new_logic_assertion, with / with_all, objective before or after the constraints; both sides are evaluated from typed HIR down to the printed LinearModel (ModelBuilder::linearize against matcher model + converters + transform_parsed_problem + Linearizer::linearize) and must agree line for line. NOT decided: the staged pipe runner and one-shot solver as whole programs (covered by FUNNEL only), solver verdicts and values, macro hygiene / expansion by rustc itself.")
 def c16(F, R, tier):
     import c16 as mod
     mod.check(F, R)
+    import macrotab
+    macrotab.check(F, R)
+    import c16rt
+    c16rt.check(F, R, get_grammar(), tier)
 
 
 @prop("C03",
